@@ -43,11 +43,18 @@ package txsort
 //@   requires tx != nil
 //@   ensures result != nil && fresh(result)
 //@   modifies nothing
+//@   assert after Copy#1: $ret != nil
+//@   assert after Sort#1: true
+//@   assert after Sort#2: true
 
 //@ func txsort.InPlaceSort
 //@   requires tx != nil
 //@   modifies tx.TxIn[*], tx.TxOut[*]
+//@   assert after Sort#1: true
+//@   assert after Sort#2: true
 
 //@ func txsort.IsSorted
 //@   requires tx != nil
 //@   modifies nothing
+//@   assert after IsSorted#1: true
+//@   assert after IsSorted#2: true
